@@ -69,6 +69,55 @@ Definition judge_col (c : colcase) : list Z :=
   [ (if tie1 then 1 else 0) + (if tie2 then 2 else 0) + (if spec then 4 else 0);
     Z.of_nat (length (kSegs c)) ].
 
+(* ------------------------------------------------------------------ K1: status column, merges in any order *)
+
+Record seqcase := mkSeq {
+  qOp : Z; qRule : Z; qSegs : list sseg; qMerges : list Z;
+  qFinal : list gout; qPrev : list Z }.       (* Go: fields and prev index (-1 = nil) of every segment afterwards *)
+
+(** specification of the column after every member of every bundle of coincident segments has been merged: the
+    surviving (not overlapped) segments carry the prefix sums of the contributions below them (the zeroed members
+    contribute nothing) and are in the result iff the region differs across them *)
+Fixpoint col_spec_ok_ov (below : list sseg) (col : list sseg) (op rule : Z) : bool :=
+  match col with
+  | [] => true
+  | s :: col' =>
+    (if sOverlapped s then true else
+     (lower_of false s =? total false below) && (lower_of true s =? total true below) &&
+     (if sOpen s || sVert s then true
+      else if op =? 5 then sIn s =? Z.b2z (fills rule (total false below)) + Z.b2z (fills rule (total false (s :: below)))
+      else sIn s =? (if Bool.eqb (bop op (fills rule (total false below)) (fills rule (total true below)))
+                                  (bop op (fills rule (total false (s :: below))) (fills rule (total true (s :: below))))
+                     then 0 else 1))) &&
+    col_spec_ok_ov (s :: below) col' op rule
+  end.
+
+(** every member of every bundle (maximal run of equal positions) occurs in the merge sequence *)
+Definition in_bundle (segs : list sseg) (k : nat) : bool :=
+  match nth_error segs k with
+  | None => false
+  | Some s =>
+    (match k with O => false | S j => match nth_error segs j with Some p => sPos p =? sPos s | None => false end end) ||
+    (match nth_error segs (S k) with Some n => sPos n =? sPos s | None => false end)
+  end.
+Definition all_merged (segs : list sseg) (ks : list nat) : bool :=
+  forallb (fun k => negb (in_bundle segs k) || existsb (Nat.eqb k) ks) (seq 0 (length segs)).
+
+(** [flags; #segments; #merges]: 1 tie fields, 2 tie prev links, 4 PROP Go's final fields violate the prefix-sum /
+    region-boundary specification (judged only when every bundle member was merged and no segment is vertical or open
+    and the initial otherSelf fields are zero: the setting of the theorems) *)
+Definition judge_seq (c : seqcase) : list Z :=
+  let m := propagate (qSegs c) (qOp c) (qRule c) in
+  let ks := map Z.to_nat (qMerges c) in
+  let fin := merge_seq (link m) ks (qOp c) (qRule c) in
+  let tie1 := negb (list_eqb gout_eqb (map (fun x => out_of (fst x)) fin) (qFinal c)) in
+  let tie2 := negb (list_eqb Z.eqb (map (fun x => match snd x with None => -1 | Some j => Z.of_nat j end) fin) (qPrev c)) in
+  let clean := forallb (fun s => negb (sVert s) && negb (sOpen s) && (sOSelf s =? 0)) (qSegs c) in
+  let gsegs := map (fun so => with_out (fst so) (snd so)) (combine (qSegs c) (qFinal c)) in
+  let spec := clean && all_merged (qSegs c) ks && negb (col_spec_ok_ov [] gsegs (qOp c) (qRule c)) in
+  [ (if tie1 then 1 else 0) + (if tie2 then 2 else 0) + (if spec then 4 else 0);
+    Z.of_nat (length (qSegs c)); Z.of_nat (length ks) ].
+
 (* ------------------------------------------------------------------ K2: end to end *)
 
 Record bocase := mkBo {
